@@ -108,12 +108,18 @@ func closeProcEnv() {
 }
 
 func (e *procEnv) redisURIs() map[string]string {
+	// go-redis arms REAL network deadlines (3 s by default) on its connections: on a heavily loaded machine a
+	// round trip to the miniredis goroutines of the same process can exceed them, which shows up as a store
+	// failure nobody injected (a thorough run under load hit this once). The deployment under test therefore
+	// configures generous timeouts in its Redis URIs - a legitimate configuration, and the only real-time
+	// dependency of the Redis path.
+	const opts = "?dial_timeout=600s&read_timeout=600s&write_timeout=600s&pool_timeout=600s"
 	out := map[string]string{}
 	for n, m := range e.redis {
-		out[n] = "redis://" + m.Addr()
+		out[n] = "redis://" + m.Addr() + opts
 	}
 	// a second logical database on the first server (C18: same server, separate keyspaces)
-	out["redisdb1"] = "redis://" + e.redis["redis"].Addr() + "/1"
+	out["redisdb1"] = "redis://" + e.redis["redis"].Addr() + "/1" + opts
 	return out
 }
 
